@@ -1855,7 +1855,9 @@ def exponent_stream(ctx):
     import quimb.tensor as qtn
     from quimb.tensor.tn1d.compress import tensor_network_1d_compress
 
-    rng = ctx.rng
+    import random
+
+    rng = random.Random(ctx.seed * 1000003 + 9091)  # private stream: the draws of the older streams stay what they were
     for n in range(ctx.n(80, 600)):
         L = rng.choice([1, 2, 3, 3, 4, 4, 5])
         kind = rng.choice(["mps", "mps", "mpo"])
@@ -2477,12 +2479,15 @@ def run_record_history(ctx, col, hid, hseed, family):
 
 
 def record_history_stage(ctx):
+    import random
+
     col = Collector(ctx)
     hid = 0
+    seeds = random.Random(ctx.seed * 1000003 + 9092)  # private stream: the draws of the older streams stay what they were
     for family, nq, nt in (("random", 28, 320), ("two_applications", 16, 200), ("queries", 16, 200)):
         for _ in range(ctx.n(nq, nt)):
             hid += 1
-            hseed = ctx.rng.randrange(1, 2 ** 31)
+            hseed = seeds.randrange(1, 2 ** 31)
             ctx.stage(lambda c, hid=hid, hseed=hseed, family=family: run_record_history(c, col, hid, hseed, family))
     col.run("record", shard=ctx.n(60, 200), header=RHEADER)
 
